@@ -8,8 +8,17 @@ Tie:
      last, through brackets, call syntax and tuple apply; assignments between views of equal and of different extents
      through every overload; each in a forked child; SIGABRT with an assertion message naming a file under
      include/boost/multi is required exactly where the property demands it, and the model's asrt_* verdict (which
-     operator[] level aborts; which overload checks what) is compared;
- (c) fixed probes for the known tensions of DESIGN 5/C20 (each either fixed in the library or a known finding)."""
+     operator[] level aborts; which overload checks what) is compared; the assignment operands are views over two
+     buffers, ALIASING views of one array (same first element and strides with different extents, overlapping blocks,
+     sub-blocks, rows vs columns, the same elements) and whole-root array_refs (two buffers or one), each pair through
+     every overload-selecting statement; a model-independent monitor compares the library's own report of the operands'
+     extensions with abort / no abort; violating view-forming calls (xop lines) must abort where asrt_op is false;
+ (c) fixed probes: the known tensions of DESIGN 5/C20 (each either fixed in the library or a known finding), and one
+     valid + one violating call for every assertion site no generated family reaches (harness/common/c20_site_probes.hpp;
+     the violating call must be stopped by the assertion that states the precondition);
+ (c') harness/c20_rank0_probe.cpp: valid uses of rank-0 arrays must COMPILE and run in all three configurations;
+ thorough tier: vlib/c20_sites.py measures, with a gcov build of the unchanged harness sources, which assertion site is
+     evaluated by which family on valid calls and which one stops which violating call (evidence: assertion_sites_*)."""
 import concurrent.futures as cf
 import glob
 import hashlib
@@ -24,28 +33,110 @@ CFG_TEXT = {"dbg": "assertions enabled (default)", "ndebug": "-DNDEBUG", "adis":
 DRIVER_C20 = "driver_c20"
 RUN_TIMEOUT = {"s": 120}
 
+X_EXT = "this->extensions()_==_other.extensions()"
+# probes that witness one and the same defect (one known-finding entry matches the group)
+PROBE_GROUP = {"v_member_cast_rebased": "scale_rebased", "v_reinterpret_array_cast_rebased": "scale_rebased"}
 PROBES = [
-    # name, expected result demanded by the property, why
-    ("diag_zero_based", "ok", "valid"),
-    ("diag_rebased", "ok", "valid"),
-    ("null_base_slice_first", "ok", "valid"),
-    ("null_base_slice", "ok", "valid"),
-    ("reextent_same_base", "ok", "valid"),
-    ("reextent_rebased", "ok", "valid"),          # regression of KF-C20-reextent-rebased-asserts (fixed by /repo 97e4116)
-    ("reextent_disjoint", "ok", "valid"),         # /repo 3905732: no view of a null block when nothing is in common
-    ("reshape_same_count", "ok", "valid"),
-    ("reshape_count_differs", "abort", "mismatched"),
-    ("reextent_zero_inner", "ok", "valid"),
-    ("elements_zero_inner", "ok", "valid"),
-    ("strided_rebased", "ok", "valid"),
-    ("array_ref_assign_count_differs", "abort", "mismatched"),
-    ("array_ref_assign_transposed", "abort", "mismatched"),
+    # name, result demanded by the property, why, (violating probes) the asserted expression that must stop the call
+    ("diag_zero_based", "ok", "valid", None),
+    ("diag_rebased", "ok", "valid", None),
+    ("null_base_slice_first", "ok", "valid", None),
+    ("null_base_slice", "ok", "valid", None),
+    ("reextent_same_base", "ok", "valid", None),
+    ("reextent_rebased", "ok", "valid", None),          # regression of KF-C20-reextent-rebased-asserts (fixed by /repo 97e4116)
+    ("reextent_disjoint", "ok", "valid", None),         # /repo 3905732: no view of a null block when nothing is in common
+    ("reshape_same_count", "ok", "valid", None),
+    ("reshape_count_differs", "abort", "mismatched", "new_layout.num_elements()_==_this->num_elements()"),
+    ("reextent_zero_inner", "ok", "valid", None),
+    ("elements_zero_inner", "ok", "valid", None),
+    ("strided_rebased", "ok", "valid", None),
+    ("array_ref_assign_count_differs", "abort", "mismatched", X_EXT),
+    ("array_ref_assign_transposed", "abort", "mismatched", X_EXT),
     # regression probes for the defects closed by /repo 6c4fe5c (all must abort) and their control
-    ("assign_views_inner_permuted", "abort", "mismatched"),
-    ("move_assign_views_count_differs", "abort", "mismatched"),
-    ("swap_views_count_differs", "abort", "mismatched"),
-    ("elements_assign_count_differs", "abort", "mismatched"),
-    ("assign_views_equal", "ok", "valid"),
+    ("assign_views_inner_permuted", "abort", "mismatched", X_EXT),
+    ("move_assign_views_count_differs", "abort", "mismatched", X_EXT),
+    ("swap_views_count_differs", "abort", "mismatched", X_EXT),
+    ("elements_assign_count_differs", "abort", "mismatched", "size()_==_other.size()"),
+    ("assign_views_equal", "ok", "valid", None),
+    # aliasing operands (seed C20-s4): two named views of ONE array, same first element and strides, different extents
+    ("assign_aliasing_same_first_2d", "abort", "mismatched", X_EXT),
+    ("assign_aliasing_same_first_1d", "abort", "mismatched", X_EXT),
+    ("assign_aliasing_same_view", "ok", "valid", None),
+    # ---- one probe per assertion site that no generated family reaches (harness/common/c20_site_probes.hpp):
+    #      v_* valid calls (silent, right values), x_* calls violating the stated precondition (stopped by that assertion)
+    ("v_member_cast_rebased", "ok", "valid", None),
+    ("v_reinterpret_array_cast_rebased", "ok", "valid", None),
+    ("v_member_cast_zero_based", "ok", "valid", None),
+    ("x_layout_extension_offset_indivisible", "abort", "violating", "offset__%_stride__==_0"),
+    ("x_layout_extension_nelems_indivisible", "abort", "violating", "nelems__%_stride__==_0"),
+    ("v_subarray_ptr_compare", "ok", "valid", None),
+    ("x_subarray_ptr_compare_other_layout", "abort", "violating", "(!self_||_!other)_||_(self->layout()_==_othe"),
+    ("x_subarray_ptr_ne_other_layout", "abort", "violating", "(!self_||_!other)_||_(self->layout()_==_othe"),
+    ("x_subarray_ptr_less_other_layout", "abort", "violating", "layout_.nelems()_==_other.layout_.nelems()"),
+    ("x_subarray_ptr_less_same_nelems_other_layout", "abort", "violating", "layout__==_other.layout_"),
+    ("x_iterator_eq_other_stride", "abort", "violating", "this->stride__==_other.stride_"),
+    ("x_iterator_eq_other_layout", "abort", "violating", "this->ptr_->layout()_==_other.ptr_->layout()"),
+    ("x_iterator_diff_other_stride", "abort", "violating", "self.stride__==_other.stride_"),
+    ("x_iterator_diff_zero_stride", "abort", "violating", "self.stride__!=_0"),
+    ("x_iterator1d_diff_other_stride", "abort", "violating", "stride()_==_other.stride()"),
+    ("x_iterator1d_diff_misaligned", "abort", "violating", "(ptr__-_other.ptr_)%stride()_==_0"),
+    ("x_iterator1d_eq_other_stride", "abort", "violating", "this->stride__==_other.stride_"),
+    ("x_iterator1d_ne_other_stride", "abort", "violating", "this->stride__==_other.stride_"),
+    ("x_iterator1d_eq_const_other_stride", "abort", "violating", "this->stride__==_other.stride_"),
+    ("x_iterator1d_less_other_stride", "abort", "violating", "stride()_==_other.stride()"),
+    ("v_iterator_post_increment", "ok", "valid", None),
+    ("x_elements_iterator_eq_other_range", "abort", "violating", "base__==_other.base__&&_l__==_other.l_"),
+    ("x_elements_iterator_ne_other_range", "abort", "violating", "base__==_other.base__&&_l__==_other.l_"),
+    ("x_elements_iterator_diff_other_range", "abort", "violating", "base__==_other.base__&&_l__==_other.l_"),
+    ("x_elements_iterator_less_other_range", "abort", "violating", "base__==_other.base__&&_l__==_other.l_"),
+    ("x_elements_index_on_empty", "abort", "violating", "!_is_empty()"),
+    ("v_elements_swap_and_init_list", "ok", "valid", None),
+    ("x_elements_swap_lv_rv_count_differs", "abort", "violating", "size()_==_other.size()"),
+    ("x_elements_swap_rv_lv_count_differs", "abort", "violating", "size()_==_other.size()"),
+    ("x_elements_init_list_count_differs", "abort", "violating", "static_cast<size_type>(values.size())_==_siz"),
+    ("v_elements_at", "ok", "valid", None),
+    ("x_elements_at_beyond", "abort", "violating", "idx_<_this->num_elements()"),
+    ("x_elements_at_beyond_const", "abort", "violating", "idx_<_this->num_elements()"),
+    ("x_elements_at_beyond_rvalue", "abort", "violating", "idx_<_this->num_elements()"),
+    ("x_elements_at_1d_beyond", "abort", "violating", "idx_<_this->num_elements()"),
+    ("x_elements_at_1d_beyond_const", "abort", "violating", "idx_<_this->num_elements()"),
+    ("x_elements_at_1d_beyond_rvalue", "abort", "violating", "idx_<_this->num_elements()"),
+    ("v_tiled", "ok", "valid", None),
+    ("x_tiled_zero", "abort", "violating", "count_!=_0"),
+    ("x_tiled_1d_zero", "abort", "violating", "count_!=_0"),
+    ("v_subarray_from_iterators", "ok", "valid", None),
+    ("x_subarray_from_iterators_other_layout", "abort", "violating", "first->layout()_==_last->layout()"),
+    ("v_reinterpret_array_cast", "ok", "valid", None),
+    ("x_reinterpret_array_cast_count", "abort", "violating", "sizeof(T)_==_sizeof(T2)*static_cast<std::siz"),
+    ("x_reinterpret_array_cast_count_const", "abort", "violating", "sizeof(T)_==_sizeof(T2)_*_static_cast<std::s"),
+    ("x_reinterpret_array_cast_count_rvalue", "abort", "violating", "sizeof(T)_==_sizeof(T2)*static_cast<std::siz"),
+    ("x_reinterpret_array_cast_1d_stride_const", "abort", "violating", "this->layout().stride()*static_cast<size_typ"),
+    ("x_reinterpret_array_cast_1d_stride", "abort", "violating", "(stride_*num)_%_den_==_0"),
+    ("v_assign_from_ranges", "ok", "valid", None),
+    ("x_assign_range_size_differs", "abort", "violating", "this->size()_==_static_cast<size_type>(adl_s"),
+    ("x_assign_init_list_size_differs", "abort", "violating", "static_cast<size_type>(values.size())_==_thi"),
+    ("x_assign_view_of_const_extents_differ", "abort", "violating", "this->extensions()_==_other.extensions()"),
+    ("x_assign_view_of_other_element_type_extents_differ", "abort", "violating", "other.extensions()_==_this->extensions()"),
+    ("x_assign_view_of_other_element_type_aliasing_shape", "abort", "violating", "other.extensions()_==_this->extensions()"),
+    ("x_assign_view_of_const_aliasing_extents_differ", "abort", "violating", "this->extensions()_==_other.extensions()"),
+    ("v_rank0", "ok", "valid", None),
+    ("x_rank0_elements_at_beyond", "abort", "violating", "idx_<_this->num_elements()"),
+    ("v_constructor_sweep", "ok", "valid", None),
+    ("x_static_array_copy_assign_extents_differ", "abort", "violating", "other.extensions()_==_this->extensions()"),
+    ("x_static_array_move_assign_extents_differ", "abort", "violating", "extensions(other)_==_static_array::extension"),
+    ("x_static_array_converting_assign_extents_differ", "abort", "violating", "extensions(other)_==_static_array::extension"),
+    ("x_static_array_assign_view_extents_differ", "abort", "violating", "this->extensions()_==_other.extensions()"),
+    ("v_layout_drop_take_all", "ok", "valid", None),
+    ("x_layout_drop_beyond", "abort", "violating", "count_<=_this->size()"),
+    ("x_layout1d_drop_beyond", "abort", "violating", "count_<=_this->size()"),
+    ("v_contiguous_layout_drop", "ok", "valid", None),
+    ("x_contiguous_layout_drop_beyond", "abort", "violating", "count_<=_this->size()"),
+    ("x_layout_halve_odd", "abort", "violating", "this->size()%2_==_0"),
+    ("v_layout_scale", "ok", "valid", None),
+    ("x_layout_scale_indivisible", "abort", "violating", "(stride_*num)_%_den_==_0"),
+    ("v_extensions_from_linear", "ok", "valid", None),
+    ("x_extensions_from_linear_zero_inner", "abort", "violating", "sub_num_elements_!=_0"),
+    ("x_extensions0_from_linear_nonzero", "abort", "violating", "n_==_0"),
 ]
 
 
@@ -227,7 +318,7 @@ class LifeFamily:
 class DeathFamily(progcheck.Family):
     def __init__(self):
         super().__init__(PID, "deaths", "deaths-run", "h_asserts", ["h_asserts.cpp"], driver=DRIVER_C20,
-                         body_prefixes=("op ", "oob ", "dop ", "sop "))
+                         body_prefixes=("op ", "oob ", "xop ", "asg ", "dop ", "sop "))
         self.exes = {}
         self.which = "dbg"
 
@@ -279,12 +370,16 @@ def judge_deaths(prog_text, model_text, impl_text):
         if any(l.startswith("U ") for l in il):
             continue                      # an operation the harness cannot express at this rank: skipped, as in C01
         # ---- shapes and index deaths: model vs implementation, line by line ----
-        mS = [l for l in ml if l[:2] in ("S ", "D ", "E ")]
-        iS = [l for l in il if l[:2] in ("S ", "D ", "E ")]
+        mS = [l for l in ml if l[:2] in ("S ", "D ", "E ", "O ")]
+        iS = [l for l in il if l[:2] in ("S ", "D ", "E ", "O ") and not l.endswith("res=unsupported")]
+        unsup = set(l.split()[2] for l in il if l.startswith("O ") and l.endswith("res=unsupported"))
+        mS = [l for l in mS if not (l.startswith("O ") and l.split()[2] in unsup)]
         if any(l.startswith("D ") or l.startswith("S ") for l in mS):
             if mS != iS:
                 a, b = first_diff("\n".join(mS), "\n".join(iS))
-                n = b.split()[2] if b.startswith("D ") and len(b.split()) > 2 else "0"
+                n = b.split()[2] if b[:2] in ("D ", "O ") and len(b.split()) > 2 else "0"
+                if b.startswith("O "):
+                    n = str(1000 + int(n))
                 extra = info.get(n, "")
                 bad.append((cid, "death:model-and-library-disagree", a, (b + "  " + extra).strip()))
                 continue
@@ -306,34 +401,112 @@ def judge_deaths(prog_text, model_text, impl_text):
                 elif not inside and res != "abort":
                     bad.append((cid, "death:out-of-range-index-not-stopped-by-a-library-assertion", "res=abort", l + "  " + info.get(p[2], "")))
         # ---- assignments: the PROPERTY decides what is expected, the model says what the pinned overload checks ----
-        for l in ml:
-            if not l.startswith("A "):
-                continue
+        mA = [l for l in ml if l.startswith("A ")]
+        gA = [x for x in il if x.startswith("A ")]
+        for n_a, l in enumerate(mA):
             f = dict(q.split("=", 1) for q in l.split()[2:])
-            got = [x for x in il if x.startswith("A ")]
-            if not got:
+            if n_a >= len(gA):
                 bad.append((cid, "assign:no-output", l, "<none>"))
                 continue
+            got = [gA[n_a]]
             g = dict(q.split("=", 1) for q in got[0].split()[2:])
             res = g.get("res")
+            linfo = info.get(str(n_a + 1), "")
+            if g.get("kind") != f["kind"]:
+                bad.append((cid, "assign:statement-order-differs", l, got[0]))
+                continue
+            if res == "unsupported":
+                continue                               # the harness cannot express this statement on these operands
             nonempty = int(f["dnel"]) > 0 and int(f["snel"]) > 0
-            elems_api = f["kind"] in ("assign_elems", "assign_elems_const")
-            if f["xeq"] == "1":
+            elems_api = f["kind"] in ELEMS_KINDS
+            tag = " [aliasing operands: two views of one array]" if f.get("alias") == "1" else ""
+            # model-independent monitor: the extensions / element counts the LIBRARY reports for the two operands decide
+            if "dext" in g and res in ("ok", "abort"):
+                same = (int(g["dnel"]) == int(g["snel"])) if elems_api else _ranges_equal(_ranges(g["dext"]), _ranges(g["sext"]))
+                if same and res != "ok":
+                    bad.append((cid, "assign:monitor:equal-extents-aborted" + tag, "res=ok", got[0] + "  " + linfo))
+                    continue
+                if not same and res != "abort":
+                    bad.append((cid, "assign:monitor:operands-of-different-extents-not-stopped-by-a-library-assertion" + tag, "res=abort", got[0]))
+                    continue
+            if elems_api:
+                # flat ranges compare element counts (C20_elements_assign_fire); the model's assertion decides
+                if (f["asrt"] == "1") != (res == "ok"):
+                    bad.append((cid, "assign:elements-range-model-and-library-disagree" + tag, l, got[0] + "  " + linfo))
+            elif f["xeq"] == "1":
                 if res != "ok":
-                    bad.append((cid, "assign:equal-extents-aborted", "res=ok", got[0] + "  " + info.get("0", "")))
+                    bad.append((cid, "assign:equal-extents-aborted" + tag, "res=ok", got[0] + "  " + linfo))
             elif res == "abort":
                 pass                                   # stopped by a library assertion: what the property demands
             elif res == "ok":
                 if f["asrt"] == "0":
-                    bad.append((cid, "assign:mismatch-not-stopped-although-the-modelled-assertion-is-false", l, got[0]))
-                elif nonempty and not elems_api:
+                    bad.append((cid, "assign:mismatch-not-stopped-although-the-modelled-assertion-is-false" + tag, l, got[0]))
+                elif nonempty:
                     # cannot happen with the model of the fixed code (C20_assign_fire: every view overload compares all
                     # extensions); kept so that a model that says "unchecked" is reported, never silently accepted
-                    bad.append((cid, "assign:mismatch-not-stopped", l, got[0]))
+                    bad.append((cid, "assign:mismatch-not-stopped" + tag, l, got[0]))
             else:
-                bad.append((cid, "assign:unexpected-termination", "res=abort", got[0] + "  " + info.get("0", "")))
+                bad.append((cid, "assign:unexpected-termination", "res=abort", got[0] + "  " + linfo))
         _ = blocks
     return bad, known
+
+
+def valid_only(prog_text, model_text):
+    """The assignment cases of a death program reduced to the statements the MODEL accepts (assertion true): those are valid
+    programs and may run on the unchecked builds."""
+    m = core.by_case(model_text)
+    out = []
+    for cid, block in core.split_cases(prog_text):
+        mA = [l for l in m.get(cid, []) if l.startswith("A ")]
+        if not mA:
+            continue
+        ok = [" asrt=1 " in l and (" xeq=1 " in l or l.split()[2][5:] in ELEMS_KINDS) for l in mA]
+        lines, k, kept = [], 0, 0
+        for l in block.splitlines():
+            if l.startswith("asg "):
+                if k < len(ok) and ok[k]:
+                    lines.append(l)
+                    kept += 1
+                k += 1
+            else:
+                lines.append(l)
+        if kept:
+            out.append("\n".join(lines) + "\n")
+    return "".join(out)
+
+
+def judge_configs(deaths, vprog, impl_dbg_valid, probe_names=None):
+    """valid assignment statements and valid probes on the -DNDEBUG / -DBOOST_MULTI_ASSERT_DISABLE builds of h_asserts:
+    same outcome (res=ok) and same buffer contents as the assertion-enabled build."""
+    bad = []
+    ref = {}
+    for cid, ls in core.by_case(impl_dbg_valid).items():
+        ref[cid] = [" ".join(q for q in l.split() if q.startswith(("kind=", "res=", "hash="))) for l in ls if l.startswith("A ")]
+    vprobes = "".join("case KV%d\nprobe %s\nend\n" % (k, p[0]) for k, p in enumerate(PROBES)
+                      if p[1] == "ok" and (probe_names is None or p[0] in probe_names))
+    n = 0
+    for cfg, _f in CONFIGS[1:]:
+        if cfg not in deaths.exes:
+            continue
+        out, crashes = deaths.run_cfg(cfg, vprog + vprobes)
+        for cid, rc, err in crashes:
+            bad.append((cid, "death-harness-crash[%s]" % cfg, "", "signal/exit %s" % rc))
+        got = core.by_case(out)
+        for cid, want in ref.items():
+            g = [" ".join(q for q in l.split() if q.startswith(("kind=", "res=", "hash="))) for l in got.get(cid, []) if l.startswith("A ")]
+            n += len(want)
+            if g != want:
+                a, b = first_diff("\n".join(want), "\n".join(g))
+                bad.append((cid, "assign:results-differ[%s vs %s]" % (CFG_TEXT["dbg"], CFG_TEXT[cfg]), a, b))
+        for l in out.splitlines():
+            if l.startswith("K ") and not l.endswith("res=ok"):
+                name = l.split()[2]
+                rec = {"harness": "h_asserts", "site": "probe:" + name, "expected": "ok", "got": l.split()[3][4:], "configuration": cfg,
+                       "group": PROBE_GROUP.get(name, name)}
+                if not match_known_rec(rec) and not match_known_rec({k: v for k, v in rec.items() if k != "configuration"}) \
+                        and not (name == "diag_rebased"):
+                    bad.append((l.split()[1], "probe:%s:valid-program-fails[%s]" % (name, CFG_TEXT[cfg]), "res=ok", l))
+    return bad, n
 
 
 def match_known_rec(rec):
@@ -343,12 +516,13 @@ def match_known_rec(rec):
 
 
 def probe_prog():
-    return "".join("case K%d\nprobe %s\nend\n" % (k, name) for k, (name, _e, _w) in enumerate(PROBES))
+    return "".join("case K%d\nprobe %s\nend\n" % (k, p[0]) for k, p in enumerate(PROBES))
 
 
 def judge_probes(impl_text, require_all=True):
     bad, known = [], []
-    want = {name: (expect, why) for name, expect, why in PROBES}
+    want = {p[0]: (p[1], p[2]) for p in PROBES}
+    want_expr = {p[0]: p[3] for p in PROBES}
     seen = set()
     info = {}
     for l in impl_text.splitlines():
@@ -365,8 +539,12 @@ def judge_probes(impl_text, require_all=True):
             continue
         expect, why = want[name]
         if res == expect:
+            ex = want_expr.get(name)
+            if expect == "abort" and ex and ("expr=" + ex) not in info.get(cid, ""):
+                # stopped, but not by the assertion that states the violated precondition
+                bad.append((cid, "probe:%s:stopped-by-another-assertion" % name, "expr=" + ex, l + "  " + info.get(cid, "")))
             continue
-        rec = {"harness": "h_asserts", "site": "probe:" + name, "expected": expect, "got": res}
+        rec = {"harness": "h_asserts", "site": "probe:" + name, "expected": expect, "got": res, "group": PROBE_GROUP.get(name, name)}
         if name == "diag_rebased" and res == "abort":
             # the same defect as C19's finding (diagonal_aux_ takes its block from index 0): reuse that entry
             rec = {"_pid": "C19", "harness": "h_views", "rebased_diagonal": True}
@@ -377,6 +555,46 @@ def judge_probes(impl_text, require_all=True):
             if name not in seen:
                 bad.append(("K?", "probe:no-output", name, "<none>"))
     return bad, known
+
+
+
+# --------------------------------------------------------------------------------------------
+# (c') rank-0 arrays: every valid use must COMPILE and give the same result in the three configurations
+# --------------------------------------------------------------------------------------------
+R0_CASES = {1: "copy construction", 2: "allocator-extended copy construction", 3: "construction from extensions and allocator",
+            4: "construction from extensions", 5: "default construction and copy assignment",
+            6: "controls: element constructors, move construction, assignment, comparison, element access"}
+
+
+def rank0_probe():
+    """harness/c20_rank0_probe.cpp, one executable per (case, configuration).  Returns (results, bad, known):
+    results[(case, cfg)] = 'ok' | 'does-not-compile' | 'exit<N>'."""
+    jobs = [(n, cfg, flags) for n in sorted(R0_CASES) for cfg, flags in CONFIGS]
+
+    def one(j):
+        n, cfg, flags = j
+        ok, exe, log = core.build_harness("c20_rank0_probe", ["c20_rank0_probe.cpp"], flags=tuple(flags) + ("-DC20_R0_CASE=%d" % n,),
+                                          tag="_c20%s_%d" % (cfg, n), timeout=300)
+        if not ok:
+            first = [l for l in log.splitlines() if "error" in l]
+            return "does-not-compile", (first[0] if first else log[-300:])[:300]
+        rc, out, err = core.sh([exe], timeout=60)
+        return ("ok" if rc == 0 else "exit%d" % rc), (out + err)[-200:]
+    with cf.ThreadPoolExecutor(max_workers=min(core.NCPU, len(jobs))) as ex:
+        res = dict(zip([(j[0], j[1]) for j in jobs], ex.map(one, jobs)))
+    bad, known = [], []
+    for n in sorted(R0_CASES):
+        r = {cfg: res[(n, cfg)][0] for cfg, _f in CONFIGS}
+        if all(v == "ok" for v in r.values()):
+            continue
+        text = "case %d (%s): %s" % (n, R0_CASES[n], ", ".join("%s: %s" % (CFG_TEXT[c], r[c]) for c, _f in CONFIGS))
+        detail = next(res[(n, c)][1] for c, _f in CONFIGS if r[c] != "ok")
+        rec = {"harness": "c20_rank0_probe", "site": "rank0:case%d" % n,
+               "compiles": "+".join(c for c, _f in CONFIGS if r[c] != "does-not-compile") or "none",
+               "runs_ok_where_it_compiles": all(v in ("ok", "does-not-compile") for v in r.values())}
+        known.append(("R0_%d" % n, "rank0:a-valid-program-does-not-compile-or-differs-across-configurations", "ok in all three configurations",
+                      text + "  [" + detail + "]", rec))
+    return {"%d:%s" % k: v[0] for k, v in res.items()}, bad, known
 
 
 # --------------------------------------------------------------------------------------------
@@ -422,7 +640,19 @@ def _coq_exts(toks):
 
 
 AK = {"assign": "AView", "assign_const": "AView", "assign_rv": "AView", "move": "AView", "assign_move": "AView", "assign_rv_rv": "AView",
-      "swap": "ASwap", "assign_elems": "AElems", "assign_elems_const": "AElems"}
+      "swap": "ASwap", "swap_member": "ASwap", "assign_elems": "AElems", "assign_elems_const": "AElems", "assign_elems_named": "AElems",
+      "swap_elems": "AElems", "swap_elems_named": "AElems", "aref_lv": "ARef", "aref_rv": "ARef", "aref_conv_lv": "ARef",
+      "aref_conv_rv": "ARef", "aref_from_rv": "ARef", "aref_rv_from_rv": "ARef", "aref_from_array": "ARef"}
+ELEMS_KINDS = tuple(k for k, v in AK.items() if v == "AElems")
+
+
+def _ranges(txt):
+    return [tuple(int(x) for x in q.split(":")) for q in txt.split(",")] if txt else []
+
+
+def _ranges_equal(a, b):
+    """index_range equality of the library: all empty ranges are equal, otherwise first and last coincide."""
+    return len(a) == len(b) and all((x[1] <= x[0] and y[1] <= y[0]) or x == y for x, y in zip(a, b))
 
 
 def vm_crosscheck(prog_text, obs_text, limit=250):
@@ -445,11 +675,11 @@ def vm_crosscheck(prog_text, obs_text, limit=250):
                     expect.append((cid, 0 if f["res"] == "ok" else int(f["rank"])))
             elif any(l and l[0] == "asg" for l in lines):
                 dr = [l for l in lines if l and l[0] == "droot"][0]
-                sr = [l for l in lines if l and l[0] == "sroot"][0]
+                sr = [l for l in lines if l and l[0] in ("sroot", "salias")][0]
                 dops = "[%s]" % "; ".join(_coq_op(l[1:]) for l in lines if l and l[0] == "dop")
                 sops = "[%s]" % "; ".join(_coq_op(l[1:]) for l in lines if l and l[0] == "sop")
                 kind = [l for l in lines if l and l[0] == "asg"][0][1]
-                al = [l for l in obs.get(cid, []) if l.startswith("A ")]
+                al = [l for l in obs.get(cid, []) if l.startswith("A ") and ("kind=%s " % kind) in l]
                 if not al:
                     continue
                 f = dict(q.split("=", 1) for q in al[0].split()[2:])
@@ -561,6 +791,8 @@ def run(tier, seed, replay=None):
         for cfg, flags in CONFIGS:
             jobs.append((fam, cfg, flags))
     jobs.append((deaths, "dbg", ()))
+    jobs.append((deaths, "ndebug", ("-DNDEBUG",)))
+    jobs.append((deaths, "adis", ("-DBOOST_MULTI_ASSERT_DISABLE",)))
     if tier == "thorough":
         jobs.append((deaths, "asan", ("-fsanitize=address", "-fno-omit-frame-pointer")))
     life.lc.assign_fill_compiles()       # one probe compilation, cached, before the parallel builds
@@ -589,7 +821,23 @@ def run(tier, seed, replay=None):
 
     if replay:
         text = "".join(l for l in open(replay) if not l.startswith("#"))
-        if re.search(r"^(oob|asg|probe) ", text, re.M):
+        if re.search(r"^rank0 ", text, re.M):
+            want = set(int(m.group(1)) for m in re.finditer(r"^rank0 (\d+)", text, re.M))
+            _r, bad0, known0 = rank0_probe()
+            bad = list(bad0)
+            for cid, found_by, wnt, got, rec in known0:
+                if int(cid.split("_")[1]) not in want:
+                    continue
+                kf = match_known_rec(rec)
+                if kf:
+                    res.known_finding(kf)
+                else:
+                    bad.append((cid, found_by, wnt, got))
+            print("replay verdict:", bad if bad else "no violation (known findings, if any, are listed above)")
+            for cid, found_by, wnt, got in bad[:4]:
+                res.violation(os.path.relpath(os.path.abspath(replay), core.VERIF), "%s: expected %r got %r" % (found_by, wnt, got))
+            return res.finish()
+        if re.search(r"^(oob|asg|probe|xop) ", text, re.M):
             probes = "".join(b for _c, b in core.split_cases(text) if re.search(r"^probe ", b, re.M))
             others = "".join(b for _c, b in core.split_cases(text) if not re.search(r"^probe ", b, re.M))
             bad, known = [], []
@@ -603,6 +851,11 @@ def run(tier, seed, replay=None):
                 bad, known = bad + b2, known + k2
                 for cid, rc, err in crashes:
                     bad.append((cid, "death:harness-crash", "", "signal/exit %s" % rc))
+            # the valid statements / valid probes of this text on the two unchecked builds
+            vprog = valid_only(others, deaths.model_run(others)) if others else ""
+            impl_v = deaths.run_cfg("dbg", vprog)[0] if vprog else ""
+            cbad, _n = judge_configs(deaths, vprog, impl_v, probe_names=set(re.findall(r"^probe (\S+)", probes, re.M)))
+            bad += cbad
             n = 0
             for cid, found_by, want, got, rec in known:
                 kf = match_known_rec(rec)
@@ -636,7 +889,9 @@ def run(tier, seed, replay=None):
     for f in sorted(glob.glob(os.path.join(core.VERIF, "corpus", PID, "*.prog"))):
         text = "".join(l for l in open(f) if not l.startswith("#"))
         for cid, block in core.split_cases(text):
-            if re.search(r"^(oob|asg|probe) ", block, re.M):
+            if re.search(r"^rank0 ", block, re.M):
+                continue                       # the rank-0 compile probe always runs all its cases
+            if re.search(r"^(oob|asg|probe|xop) ", block, re.M):
                 corpus.setdefault("deaths", []).append(block)
             else:
                 corpus.setdefault(family_of_text(block, fams).name, []).append(block)
@@ -708,9 +963,9 @@ def run(tier, seed, replay=None):
     else:
         skipped.append("life")
     # ---- (b) death tests ----
-    n_death = 330 if quick else 5200
+    n_death = 1200 if quick else 8000
     death_cfgs = ["dbg"] + (["asan"] if tier == "thorough" else [])
-    prog_d, obs_d, dd = deaths.generate(seed + 101, n_death, extra=["--maxops", "4" if quick else "6", "--asg-pct", "35"], prefix="d")
+    prog_d, obs_d, dd = deaths.generate(seed + 101, n_death, extra=["--maxops", "4" if quick else "6", "--asg-pct", "40"], prefix="d")
     prog_r, obs_r, dr = deaths.generate(seed + 102, 110 if quick else 1800, extra=["--maxops", "4", "--asg-pct", "0", "--rebased"],
                                         prefix="r")
     prog_c = "".join(corpus.get("deaths", []))
@@ -733,6 +988,19 @@ def run(tier, seed, replay=None):
         n_A += len(re.findall(r"^A ", impl, re.M))
         evals += len(core.split_cases(prog_death)) + len(PROBES)
         lines_cmp += obs_death.count("\n")
+    # ---- (c') rank-0 arrays compile and agree in the three configurations ----
+    r0_results, r0_bad, r0_known = rank0_probe()
+    r0_prog = "".join("case R0_%d\nrank0 %d\nend\n" % (n, n) for n in sorted(R0_CASES))
+    n_fail += report(res, r0_bad, r0_known, r0_prog, None)
+    evals += len(r0_results)
+    # ---- (b') the valid assignment statements and the valid probes in the two unchecked configurations ----
+    vprog = valid_only(prog_death, obs_death)
+    impl_v, _cr = deaths.run_cfg("dbg", vprog)
+    cbad, n_cfg = judge_configs(deaths, vprog, impl_v)
+    deaths.which = "dbg"
+    n_fail += report(res, cbad, [], vprog + "".join("case KV%d\nprobe %s\nend\n" % (k, p[0]) for k, p in enumerate(PROBES) if p[1] == "ok"), None)
+    evals += 2 * len(core.split_cases(vprog))
+    lines_cmp += 2 * n_cfg
     n_vm = 0
     if tier == "thorough":
         n_vm, vm_bad = vm_crosscheck(prog_d, obs_d)
@@ -741,6 +1009,22 @@ def run(tier, seed, replay=None):
             path = core.write_replay(PID, dict(core.split_cases(prog_d)).get(cid, ""), {
                 "property": PID, "found-by": "trust:extracted-model-differs-from-vm_compute", "extracted-said": e, "vm_compute-said": g})
             res.violation(path, "extracted model %r, vm_compute %r" % (e, g), no_input=True)
+    # ---- thorough: which assertion site is reached by which family / probe (gcov build of the unchanged harness sources) ----
+    site_cov = {}
+    if tier == "thorough":
+        from . import c20_sites
+        try:
+            sites, reached, fired, sprob = c20_sites.measure(seed, log=lambda *_a: None)
+            site_cov = {
+                "assertion_sites": len(sites),
+                "assertion_sites_reached_on_valid_calls": sum(1 for x in sites if reached[x["key"]]),
+                "assertion_sites_fired_on_violating_calls": sum(1 for x in sites if fired[x["key"]]),
+                "assertion_sites_never_evaluated": ["%s:%d %s" % (x["file"], x["line"], x["expr"][:60]) for x in sites
+                                                    if not reached[x["key"]] and not fired[x["key"]]],
+                "assertion_site_measurement_problems": sprob,
+            }
+        except Exception as e:                       # a measurement, never a verdict
+            site_cov = {"assertion_site_measurement_problems": ["%s: %s" % (type(e).__name__, e)]}
     sample_blocks += [b for _c, b in core.split_cases(prog_d)[:50] if "oob" in b][:1]
     sample_blocks += [b for _c, b in core.split_cases(prog_d) if "asg" in b][:1]
     # ---- proof verdict ----
@@ -758,24 +1042,52 @@ def run(tier, seed, replay=None):
                 "runs on three builds of the UNCHANGED harness source (default, -DNDEBUG, -DBOOST_MULTI_ASSERT_DISABLE); "
                 "(b) death tests: for the final view of a view program (rank 1..6), for up to three dimensions: index first-1, last, "
                 "last+1..3, first-2..4, plus two wrong indices at once and one all-valid control tuple, through brackets (55%), call "
-                "syntax (27%), tuple apply (18%); 35% of the death programs are assignments between two views built by view programs "
-                "over separate buffers: equal extents (30%), same leading extent and element count with permuted inner extents (30%, "
-                "rank >= 3), one extent off by one (40%), through 9 overload-selecting statements; each test in a forked child of the "
-                "assertion-enabled build; (c) 19 fixed probes. non-trivial = at least 3 program lines; distinct by hash",
+                "syntax (27%), tuple apply (18%); after them up to ~8 VIOLATING VIEW-FORMING CALLS on the same view for which the "
+                "model's asrt_op is false (taked/dropped beyond size(), sliced/blocked/sliced-with-stride bounds below first / beyond "
+                "last / at last, partitioned by 0 or a non-divisor, chunked by a non-divisor, halved of an odd size, call-syntax ranges "
+                "and indices out of range in the first and second argument); 40% of the death programs are assignments, each pair of "
+                "operands going through several overload-selecting statements, every statement in its own forked child: (i) 40% "
+                "two views over separate buffers (3 of 13 statements): equal extents 30%, same leading extent and element count with "
+                "permuted inner extents 30% (rank >= 3), one extent off by one 40%; (ii) 40% ALIASING operands = two views of ONE "
+                "array built from a common view program (all 13 statements: a = b, = const view, rvalue = lvalue, = element_moved(), "
+                "swap free/member, = std::move, rvalue = rvalue, elements() = elements() x3, elements().swap x2): same first element "
+                "and strides with different lengths 30% (equal lengths control in 3 of 10), shifted windows of equal lengths with or "
+                "without reindexing to 0 20%, block and sub-block either way 12%, row vs column 14%, the very same elements 8%, "
+                "strided(p) vs [dropped(1).]strided(q) 10%, reversed 6%; (iii) 20% array_ref assignment over whole roots through "
+                "all 7 array_ref statements (& / && x same type, pointer-to-const source, rvalue source, owning array source), "
+                "extents equal / permuted / off by one / shifted index base, half of them two array_refs over ONE buffer; the "
+                "extensions and element counts the LIBRARY reports for the two operands decide (model-independent monitor) and the "
+                "model's asrt_assign must agree; the valid statements are run again on the -DNDEBUG and -DBOOST_MULTI_ASSERT_DISABLE "
+                "builds of the death harness and must leave the same buffer contents; (c) " + str(len(PROBES)) + " fixed probes (the valid ones "
+                "in all three configurations): known tensions, regression probes, and one valid + one violating "
+                "call per assertion site no generated family reaches (the violating ones must be stopped by the assertion that states "
+                "the violated precondition: the asserted expression is compared); (c') rank-0 arrays: 6 valid uses x 3 configurations "
+                "must compile and exit 0. non-trivial = at least 3 program lines; distinct by hash",
         "samples": sample_blocks[:4],
         "generator_distribution": dist,
         "observation_lines_compared": lines_cmp,
         "death_tests_index": n_D,
         "death_tests_assignment": n_A,
+        "valid_assignment_statements_compared_in_unchecked_builds": n_cfg,
         "vm_compute_cross_checks": n_vm,
         "probes": [p[0] for p in PROBES],
+        "rank0_compile_probe": r0_results,
+        **site_cov,
         "configurations": [CFG_TEXT[c] for c, _f in CONFIGS] + (["assertions + -fsanitize=address (death tests)"] if tier == "thorough" else []),
         "corpus_cases": sum(len(v) for v in corpus.values()),
         "disagreeing_cases": n_fail,
         "families_skipped_after_8_failing_cases": skipped,
-        "not_exercised": ["array lifecycle histories (C04/C06) in three configurations: those harnesses do not exist in this tree yet",
-                          "taked() for D > 1 (does not compile at the pinned commit)", "broadcasted() views (stride-0 escape: theorem only)",
-                          "iterators of DIFFERENT views compared with each other (undefined by the documented preconditions)",
+        "not_exercised": ["taked() for D > 1 through the view families (does not compile at the pinned commit on mutable lvalues)",
+                          "broadcasted() views (stride-0 escape: theorem only; one probe of iterator difference on a stride-0 dimension)",
+                          "assertion sites no input can reach (listed with reasons in notes/REPORT_C20.txt FOLLOW-UP 3): "
+                          "const_subarray<T,1>::assign(initializer_list) / assign(first,last) and the assert(0) overload of "
+                          "const_subarray<T,1>::operator= (cannot be instantiated), array<T,0>(view, alloc) and the explicit "
+                          "initializer-list constructor of array<T,1> (do not compile), the _MSC_VER-only constructors, the "
+                          "execution-policy copy constructor, detail/operators.hpp:114 (incrementable's post-increment is never "
+                          "selected by overload resolution), assert(stride() != 0) cannot be violated through the public interface",
+                          "violating calls under -DBOOST_MULTI_ASSERT_DISABLE (the plain asserts that stay live there are modelled, "
+                          "asrt_plain, but the death tests run on the default configuration only)",
+                          "1-D stride-0 views (array_ref.hpp iterator assertions stride() != 0 of the D = 1 iterator)",
                           "BLAS/FFTW/MPI adaptor assertions"],
     })
     res.assumptions = ["no 64-bit overflow in index arithmetic", "g++ 12 / glibc assert() message format (file:line: function: Assertion `expr' failed.)",
